@@ -126,10 +126,9 @@ func genTy(r *simrt.Run, depth int) tyE {
 		ns := c11Names[p]
 		return tyE{K: "singleton", Name: ns[r.Choose(len(ns), "c11.ty.sname")]}
 	case 6:
-		// /any is not generated for columns that feed rules: a value of an
-		// /any column is accepted into any narrower declared column (known
-		// finding any-flows-into-narrower-bound); it still appears as a
-		// declared (target) bound through widening below
+		if r.OneIn(3, "c11.ty.any") {
+			return tyE{K: "any"}
+		}
 		return tyE{K: "number"}
 	case 7:
 		return tyE{K: "union", Args: []tyE{genTy(r, depth-1), genTy(r, depth-1)}}
@@ -446,13 +445,18 @@ func runC11(r *simrt.Run, tier Tier) Outcome {
 		for k, row := range rows {
 			decl[k] = append([]tyE{}, row...)
 		}
-		// Declared bounds that are strictly narrower than, but overlap, what the
-		// rule bodies produce are kept out: bounds inference then narrows the
-		// body types by the declared head bound instead of reporting a
-		// mismatch (known finding narrowed-head-bound-*). Near misses are
-		// therefore either wider (must be accepted or rejected, facts conform
-		// anyway) or disjoint in one component of every row (must be rejected).
-		switch r.Choose(5, "c11.decl.kind") {
+		// near misses: disjoint, wider, an extra row, narrower (sibling), a dropped row
+		switch r.Choose(7, "c11.decl.kind") {
+		case 5: // narrower / sibling type in one component
+			k := r.Choose(len(decl), "c11.decl.row")
+			c := r.Choose(len(decl[k]), "c11.decl.col")
+			decl[k][c] = sibling(r, decl[k][c])
+			perturbed = true
+		case 6: // drop a row
+			if len(decl) > 1 {
+				decl = decl[:1]
+				perturbed = true
+			}
 		case 0: // disjoint in one column of every row
 			c := r.Choose(len(decl[0]), "c11.decl.col")
 			for k := range decl {
